@@ -114,3 +114,22 @@ def register(R):
     update_contract("all", RATES)
     update_contract("tpr_ppv", ["tpr", "ppv"])
     update_contract("tnr", ["tnr"])
+
+    # C17: smaller levels never tighten the simulated bounds.  Two runs of the real _sim_bounds that differ in one level
+    # only; the Monte-Carlo simulation (from the assignment of exps to that of result_vector) is abstracted - not verified
+    # here - and shown not to read the levels (dependency analysis), so both runs take percentiles of the same simulated
+    # vector; the four np.percentile calls and the returned record are executed symbolically
+    for nm, fld in (("LFR_detect_level", "detect_level"), ("LFR_warning_level", "warning_level")):
+        kind = "detect" if fld == "detect_level" else "warn"
+        other = "warn" if kind == "detect" else "detect"
+        R.relational(nm, function=Q + "._sim_bounds", tags=("C17",), vary=[fld],
+                     params={"est_rate": "Real", "denom": "Int"},
+                     requires=["same_except(self1, self2, %r)" % fld, "0 < self1.%s and self1.%s <= self2.%s and self2.%s < 1" % (fld, fld, fld, fld)],
+                     ensures=[
+                         # the smaller level has the lower lower bound and the higher upper bound ...
+                         "result1['lb_%s'] <= result2['lb_%s'] and result1['ub_%s'] >= result2['ub_%s']" % (kind, kind, kind, kind),
+                         # ... and the bounds of the other level are not touched
+                         "result1['lb_%s'] == result2['lb_%s'] and result1['ub_%s'] == result2['ub_%s']" % (other, other, other, other),
+                         "same_except(self1, self2, %r)" % fld],
+                     abstract_blocks={Q + "._sim_bounds": [{"from": "exps", "to": "result_vector", "types": {"result_vector": "AnyList"}}]})
+
